@@ -811,6 +811,41 @@ def run(chk):
         if not okg:
             chk.violation(r_oa, "handle_OPERATE:global", "handle_OPERATE: the pass over the global storage is not guarded by the target having global storage (%s)" % [show(g["cond"]) for g in guards], ho["file"], gcall["l"])
 
+    # ---- C12.editmult: the deferred multipliers of the EDIT section
+    r_em = chk.rule("C12.editmult", "FieldProps::apply_multipliers (end of the EDIT section): for every deferred multiplier array M<kw> and its target <kw>, each element-wise product takes the ADDITIONAL multiplier - the array found under the prefixed name - as its second factor and writes back into its first: the target's per-cell data, the target's global data (factor: the multiplier's global data), and, for MULTPV, an already existing PORV (factor: the multiplier's per-cell data); nothing is multiplied by the accumulated target itself", floor=3)
+    am = [f for f in fns if f["n"] == "apply_multipliers" and f["file"].endswith("FieldProps.cpp")]
+    if len(am) != 1:
+        raise core.AnalysisBroken("FieldProps::apply_multipliers not found")
+    am = am[0]
+    d_am = {v["n"]: show(strip(v["init"])) for n in walk(am["body"]) if n["k"] == "Decl" for v in n["vars"] if isinstance(v.get("init"), dict)}
+    kw_stripped = [k_ for k_, v in d_am.items() if ".substr(" in v]
+    mult_it = [k_ for k_, v in d_am.items() if v.startswith("this.double_data.find(") and kw_stripped and not v.startswith("this.double_data.find(%s)" % kw_stripped[0]) and "PORV" not in v]
+    tgt_it = [k_ for k_, v in d_am.items() if kw_stripped and v == "this.double_data.find(%s)" % kw_stripped[0]]
+    if len(mult_it) != 1 or len(tgt_it) != 1:
+        raise core.AnalysisBroken("apply_multipliers: the iterators of the multiplier (%s) and of its target (%s) were not identified" % (mult_it, tgt_it))
+    mi, ti = mult_it[0], tgt_it[0]
+    trs = [n for n in walk(am["body"]) if n["k"] == "Call" and (n.get("fn") or "").endswith("transform") and len(n.get("a") or []) == 5]
+    for n in trs:
+        a = [show(x) for x in n["a"]]
+
+        def root(t):
+            t2 = t
+            for nm_, init_ in d_am.items():
+                if re.match(r"%s\b" % re.escape(nm_), t2) and nm_ not in (mi, ti):
+                    t2 = init_ + t2[len(nm_):]
+            return t2
+        first, last, second, out = a[0], a[1], a[2], a[3]
+        key = "product@%d" % n["l"]
+        whole = first.endswith(".begin()") and last == first[:-len("begin()")] + "end()" and out == first
+        from_mult = ("(->%s)" % mi) in second and ("(->%s)" % ti) not in second
+        part_ok = ("global_data" in first) == ("global_data" in second)
+        mul = "multiplies" in a[4]
+        chk.instance(r_em, key, sample=dict(line=n["l"], target=first, factor=second, output=out))
+        if not (whole and from_mult and part_ok and mul):
+            chk.violation(r_em, key, "apply_multipliers: std::transform(%s, %s, %s, %s, %s): the second factor must be the additional multiplier's %s data (%s->second...), the product is written back over the whole first range - here %s" % (first, last, second, out, a[4], "global" if "global_data" in first else "per-cell", mi, "the factor is not the additional multiplier: the accumulated multiplier is applied, so an earlier (GRID-section) multiplier counts twice" if not from_mult else "the ranges do not match"), am["file"], n["l"])
+    if len(trs) < 3:
+        raise core.AnalysisBroken("apply_multipliers: %d element-wise products found (3 expected)" % len(trs))
+
     # ---- C12.lostcopy: an update written into a local copy of the storage it is meant for
     r_lc = chk.rule("C12.lostcopy", "in the cell-property code a local variable that is a by-value copy of storage outliving the function (a member of *this or of a reference parameter, possibly through * or .value()) is not used only as the target of element assignments / mutating calls: such writes end with the function and the array they were meant for keeps its old content (a reference binding - auto& - is what the sibling variables use)", floor=1)
     from verif.tree import children as _children
